@@ -15,6 +15,7 @@ if TYPE_CHECKING:
 
 from autoarray.structures.arrays import array_2d_util
 from autoconf import conf
+from autoconf import cached_property
 
 
 def to_new_array(func):
@@ -135,6 +136,13 @@ class AbstractNDArray(ABC):
         """
         new_array = self.copy()
         new_array._array = array
+
+        # Quantities cached from the old array (e.g. `is_uniform`, `amplitudes`) do not describe the new array.
+
+        for name in list(new_array.__dict__):
+            if isinstance(getattr(type(new_array), name, None), cached_property):
+                del new_array.__dict__[name]
+
         return new_array
 
     def copy(self):
